@@ -102,15 +102,16 @@ def demo : List Op :=
    .moveCtor 4 1,            -- 4 takes the place of 1
    .moveAssign 3 0,          -- 3 leaves list 1 and takes the place of 0
    .listMoveAssign 1 0,      -- list 1 (empty by now) takes over list 0
-   .listMoveCtor 2 1, .unlink 4, .delElem 3, .listMoveAssign 2 0 /- from an empty list -/, .delList 2]
+   .listMoveCtor 2 1, .unlink 4, .delElem 3, .listMoveAssign 2 0 /- from an empty list -/, .delList 2,
+   .moveCtor 5 4 /- from an unlinked element -/, .moveAssign 5 0 /- from a moved-from element -/]
 
 example : validRun [] demo = true := by decide
 example : members (Spec.run [] (demo.take 9)) 1 = some [.elem 3, .elem 4, .elem 2] := by decide
 example : members (Spec.run [] (demo.take 12)) 2 = some [.elem 2] := by decide
 example : members (Spec.run [] demo) 2 = none := by decide
 example : members (Spec.run [] demo) 0 = some [] := by decide
-/-- element 2 survives in an orphan ring: alive, in no list -/
-example : Spec.run [] demo = [[.elem 4], [.head 1], [.head 0], [.elem 0], [.elem 1], [.elem 2]] := by decide
+/-- element 2 survives in an orphan ring: alive, in no list; 5 (moved from unlinked elements twice) is unlinked -/
+example : Spec.run [] demo = [[.elem 5], [.elem 4], [.head 1], [.head 0], [.elem 0], [.elem 1], [.elem 2]] := by decide
 
 /-! ### the repaired defect (fcppt commit dcbe9a0) and the guard of `valid` -/
 
@@ -141,26 +142,72 @@ def faults {α : Type} (r : M α) (f : Fault) : Bool :=
   | .error g => g == f
   | .ok _ => false
 
-/-- **Why `valid` restricts element moves to a linked source** (suspected genuine defect, see
-notes/C11.md): `base(base&&)` from an unlinked element leaves the new element pointing at the source
-without being pointed at; destroying the source and then the new element writes through a dangling
-pointer. -/
-theorem moveCtor_from_unlinked_breaks_ring :
-    (do let σ ← run Store.empty [.newList 0, .newElem 0 0, .unlink 0, .moveCtor 1 0]
+/-! ### the second repaired defect (fcppt commit f84f067): element moves from an unlinked source -/
+
+/-- `base(base&&)` as it was before f84f067: no test for an unlinked source -/
+def baseCtorMoveOld (σ : Store) (self other : Node) : M Store := do
+  let p ← rdPrev σ other
+  let n ← rdNext σ other
+  let σ := σ.alloc self p n
+  attach σ self other
+
+/-- `base::operator=(base&&)` as it was before f84f067 -/
+def baseAssignMoveOld (σ : Store) (self other : Node) : M Store :=
+  if other = self then .ok σ else do
+    let σ ← detach σ self
+    let op ← rdPrev σ other
+    let σ ← wrPrev σ self op
+    let on ← rdNext σ other
+    let σ ← wrNext σ self on
+    attach σ self other
+
+/-- Old behaviour refuted (replay `corpus/C11/defect-f84f067.ops`, first history): move-constructing `e1`
+from the unlinked `e0` left `e1` pointing at `e0` with nothing pointing at `e1`; destroying `e0` and then
+`e1` wrote through a dangling pointer (heap-use-after-free). -/
+example :
+    (do let σ ← run Store.empty [.newList 0, .newElem 0 0, .unlink 0]
+        let σ ← baseCtorMoveOld σ (.elem 1) (.elem 0)
         pure (σ.next (.elem 1), σ.prev (.elem 1), σ.next (.elem 0), σ.prev (.elem 0)))
       = .ok (Node.elem 0, Node.elem 0, Node.elem 0, Node.elem 0) ∧
-    faults (run Store.empty [.newList 0, .newElem 0 0, .unlink 0, .moveCtor 1 0, .delElem 0, .delElem 1]) .oob = true := by
+    faults (do let σ ← run Store.empty [.newList 0, .newElem 0 0, .unlink 0]
+               let σ ← baseCtorMoveOld σ (.elem 1) (.elem 0)
+               run σ [.delElem 0, .delElem 1]) .oob = true := by
+  decide
+
+/-- … with the repaired code the new element is unlinked and both destructions are harmless. -/
+example :
+    (do let σ ← run Store.empty [.newList 0, .newElem 0 0, .unlink 0, .moveCtor 1 0]
+        pure (σ.next (.elem 1), σ.prev (.elem 1), σ.next (.elem 0), σ.prev (.elem 0)))
+      = .ok (Node.elem 1, Node.elem 1, Node.elem 0, Node.elem 0) ∧
+    validRun [] [.newList 0, .newElem 0 0, .unlink 0, .moveCtor 1 0, .delElem 0, .delElem 1] = true := by
   decide
 
 set_option maxRecDepth 8000 in
-/-- the same through move assignment, corrupting a list that is otherwise untouched: afterwards the
-iteration of list 0 never reaches `end()` -/
-theorem moveAssign_from_unlinked_corrupts_list :
-    (do let σ ← run Store.empty [.newList 0, .newElem 0 0, .newElem 1 0, .newElem 2 0, .unlink 2,
-                                 .moveCtor 3 2, .moveAssign 2 0, .delElem 3]
+/-- Old behaviour refuted (second history of the replay): the stale links of `e3` corrupted list 0, which `e2`
+had meanwhile joined — afterwards iteration of list 0 never reached `end()`; no dead object involved. -/
+example :
+    (do let σ ← run Store.empty [.newList 0, .newElem 0 0, .newElem 1 0, .newElem 2 0, .unlink 2]
+        let σ ← baseCtorMoveOld σ (.elem 3) (.elem 2)
+        let σ ← run σ [.moveAssign 2 0, .delElem 3]
         walk σ (.head 0) 12) = .error .fuel := by
   decide
 
+/-- … with the repaired code list 0 is `[e2, e1]` after the same history. -/
+example :
+    (do let σ ← run Store.empty [.newList 0, .newElem 0 0, .newElem 1 0, .newElem 2 0, .unlink 2,
+                                 .moveCtor 3 2, .moveAssign 2 0, .delElem 3]
+        walk σ (.head 0) 12) = .ok [.elem 2, .elem 1] := by
+  decide
+
+/-- Old move assignment refuted: orphan ring `[e0, e1]` (their list was destroyed), `e0 = std::move(e1)`:
+`e1` is unlinked once `e0` has left, and the old code left `e0` pointing at `e1`. -/
+example :
+    (do let σ ← run Store.empty [.newList 0, .newElem 0 0, .newElem 1 0, .delList 0]
+        let σ ← baseAssignMoveOld σ (.elem 0) (.elem 1)
+        pure (σ.next (.elem 0), σ.prev (.elem 0))) = .ok (Node.elem 1, Node.elem 1) ∧
+    (do let σ ← run Store.empty [.newList 0, .newElem 0 0, .newElem 1 0, .delList 0, .moveAssign 0 1]
+        pure (σ.next (.elem 0), σ.prev (.elem 0))) = .ok (Node.elem 0, Node.elem 0) := by
+  decide
 
 /-! ## Signals -/
 
